@@ -971,6 +971,14 @@ spifconf_parse_line(FILE * fp, spif_charptr_t buff)
                   file_poke_fp(fp);
                   file_poke_preproc(1);
                   file_poke_outfile(outfile);
+              } else {
+                  /* The preprocessed text cannot be read back.  Carry on with the
+                     original file, and do not leave the temporary one behind. */
+                  if (fd >= 0) {
+                      close(fd);
+                      remove((char *) fname);
+                  }
+                  FREE(outfile);
               }
           } else {
               if (file_peek_skip()) {
